@@ -24,9 +24,6 @@ type Broker struct {
 	mu      sync.Mutex
 	n       int
 	Conns   map[string]*FConn
-	// PeerPrep, when set, configures the next attached peer before its reader
-	// starts (one-shot).
-	PeerPrep func(p *Peer)
 	ClientC map[string]*broker.Client
 }
 
@@ -44,6 +41,11 @@ func NewBroker() *Broker {
 // the peer end and the broker-side connection wrapper. prep may configure the
 // wrapper (faults, assertions) or the ends before the broker sees it.
 func (b *Broker) Attach(name string, prep func(fc *FConn, brokerEnd, peerEnd *wire.End)) (*Peer, *FConn) {
+	return b.AttachWith(name, prep, nil)
+}
+
+// AttachWith is Attach with a hook that configures the peer before its reader starts.
+func (b *Broker) AttachWith(name string, prep func(fc *FConn, brokerEnd, peerEnd *wire.End), pp func(p *Peer)) (*Peer, *FConn) {
 	b.mu.Lock()
 	b.n++
 	if name == "" {
@@ -59,10 +61,6 @@ func (b *Broker) Attach(name string, prep func(fc *FConn, brokerEnd, peerEnd *wi
 	b.Conns[name] = fc
 	b.mu.Unlock()
 	peer := NewPeer(name, pe, b.Log)
-	b.mu.Lock()
-	pp := b.PeerPrep
-	b.PeerPrep = nil
-	b.mu.Unlock()
 	if pp != nil {
 		pp(peer)
 	}
@@ -89,17 +87,12 @@ type ConnectOpts struct {
 // the peer, the CONNACK (nil if the connection ended first) and an error for
 // watchdog expiry.
 func (b *Broker) Connect(name string, o ConnectOpts, prep func(fc *FConn, brokerEnd, peerEnd *wire.End)) (*Peer, *FConn, *packet.Connack, error) {
-	if o.AutoAck || o.OnPeer != nil {
-		b.mu.Lock()
-		b.PeerPrep = func(p *Peer) {
-			p.AutoAck = o.AutoAck
-			if o.OnPeer != nil {
-				o.OnPeer(p)
-			}
+	p, fc := b.AttachWith(name, prep, func(p *Peer) {
+		p.AutoAck = o.AutoAck
+		if o.OnPeer != nil {
+			o.OnPeer(p)
 		}
-		b.mu.Unlock()
-	}
-	p, fc := b.Attach(name, prep)
+	})
 	c := &packet.Connect{ClientID: o.ID, CleanSession: o.Clean, KeepAlive: o.KeepAlive, Will: o.Will, Username: o.User, Password: o.Pass, Version: 4}
 	if err := p.Send(c); err != nil {
 		return p, fc, nil, nil
